@@ -283,6 +283,22 @@ public:
 		return *this;
 	}
 
+	StreamBuffer& operator<<(char* x) // a non-const pointer or char buffer is a C string too (not a value for the generic operator)
+	{
+		return *this << (const char*)x;
+	}
+
+	/**
+	Writes the N items of a C array one after the other
+	*/
+	template<class T, int N>
+	StreamBuffer& operator<<(const T (&x)[N])
+	{
+		for (int i = 0; i < N; i++)
+			*this << x[i];
+		return *this;
+	}
+
 	StreamBuffer& operator<<(const String& x)
 	{
 		write(*x, x.length());
